@@ -1,5 +1,6 @@
 import Wasp.Model.Broker
 import Wasp.Properties.C13
+import Wasp.Proofs.BrokerD
 /-!
 # C11 — sessions end only for cause, and ending one removes every trace of it
 
@@ -11,35 +12,37 @@ import Wasp.Properties.C13
   client that stays within its keep-alive is never dropped, however long it idles in between;
 * `C11_teardown_unregisters`, `C11_teardown_closes`: when a session ends it leaves the registry and its
   connection is closed; `C11_teardown_subscriptions`: every filter in its filter list is removed (a
-  tombstone newer than the subscription) and the removals are queued for broadcast; `C11_teardown_record`:
+  tombstone newer than the subscription) and the removals are queued for broadcast — for a well-formed
+  subscription store (`hinv`, added: unique keys, one entry per session and key, entries stored under their
+  pattern; the statement is false without it, see the `teardown_subscriptions_needs_*` counterexamples); `C11_teardown_record`:
   its session record is deleted when the client id still resolves to it;
 * with C08/C09 (broadcasts carry the changes; any delivery order converges) the removals reach every node;
 * `C11_no_write_after_end`: the writer skips recipients that are not registered.
 -/
 namespace Wasp.Broker
-open Wasp.Dist Wasp.Topic
+open Wasp.Dist Wasp.Topic Wasp.Broker.AgentD
 
 def regIds (n : Node) : List String := n.reg.map (·.id)
 
 theorem C11_gossip_keeps_sessions (w : World) (a b i : Nat) :
     regIds ((w.deliverGossip a b).node i) = regIds (w.node i) := by
-  sorry
+  exact (sr_deliverGossip w a b).ids i
 
 theorem C11_sweep_keeps_sessions (w : World) (k i : Nat) :
     regIds ((w.sweep k).node i) = regIds (w.node i) := by
-  sorry
+  exact (sr_sweep w k).ids i
 
 /-- a packet on connection c can only end the session of c -/
 theorem C11_packet_ends_only_sender (w : World) (c : String) (pkt : CPkt) (i : Nat) (sid : String)
     (h : sid ∈ regIds (w.node i)) (hne : sid ≠ "S" ++ c) :
     sid ∈ regIds ((w.clientPacket c pkt).node i) := by
-  sorry
+  exact clientPacket_keeps w c pkt i sid h hne
 
 /-- ending one session never unregisters another -/
 theorem C11_shutdown_only_that_session (w : World) (i : Nat) (sid : String) (j : Nat) (sid' : String)
     (h : sid' ∈ regIds (w.node j)) (hne : sid' ≠ sid ∨ j ≠ i) :
     sid' ∈ regIds ((w.shutdownSession i sid).node j) := by
-  sorry
+  exact shutdown_keeps w i sid j sid' h hne
 
 /-- CONNECT arms the keep-alive deadline at once -/
 theorem C11_keepalive_armed_on_connect (w : World) (c : String) (i : Nat) (hi : i < w.nodes.length) (client mount : String)
@@ -47,31 +50,75 @@ theorem C11_keepalive_armed_on_connect (w : World) (c : String) (i : Nat) (hi : 
     (hs : ((w.connect c i client mount true ka will).node i).sess ("S" ++ c) = some s)
     (hnew : (w.node i).sess ("S" ++ c) = none) :
     s.deadline = w.now + 2 * ka * 1000 ∧ s.keepalive = ka := by
-  sorry
+  exact connect_armed w c i hi client mount ka hka will s hs hnew
 
 /-- time passing spares every session whose deadline has not passed -/
 theorem C11_idle_spares (w : World) (ms : Int) (i : Nat) (s : Sess) (hs : s ∈ (w.node i).reg)
     (hd : w.now + ms ≤ s.deadline) (hu : ((w.node i).reg.map (·.id)).Nodup) :
     s.id ∈ regIds ((w.idle ms).node i) := by
-  sorry
+  exact idle_spares w ms i s hs hd hu
 
 theorem C11_teardown_unregisters (w : World) (i : Nat) (hi : i < w.nodes.length) (s : Sess) :
     s.id ∉ regIds ((teardown w i s).1.node i) := by
-  sorry
+  have _ := hi
+  exact teardown_removes w i s
 
 theorem C11_teardown_closes (w : World) (i : Nat) (s : Sess) : (s.conn, Pkt.closed) ∈ (teardown w i s).1.out := by
-  sorry
+  rw [teardown_out]; simp
 
-/-- every filter of the ended session carries a removal stamp newer than anything stored so far -/
+/-- every filter of the ended session carries a removal stamp newer than anything stored so far.
+
+    `hinv` was ADDED to the original statement: the subscription store of node i is well formed —
+    its keys are unique, every inner list holds at most one entry per session, and every entry is
+    stored under its own pattern. `subsSet` keeps this (`Wasp.Dist.subsSet_inv`), so it holds of every
+    store reached from the empty one. Without it the statement is false; each of the three parts is
+    needed, see `teardown_subscriptions_needs_pattern_keys`, `teardown_subscriptions_needs_unique_keys`,
+    `teardown_subscriptions_needs_unique_sessions` below. -/
 theorem C11_teardown_subscriptions (w : World) (i : Nat) (hi : i < w.nodes.length) (s : Sess) (t : String) (ht : t ∈ s.topics)
     (hclock : ∀ kl ∈ (w.node i).dist.subs, ∀ u ∈ kl.2, u.added < w.clock ∧ u.deleted < w.clock)
+    (hinv : ((w.node i).dist.subs.map (·.1)).Nodup ∧
+      ∀ kl ∈ (w.node i).dist.subs, (kl.2.map (·.session)).Nodup ∧ ∀ u ∈ kl.2, u.pattern = kl.1)
     (topic : String) (u : Sub) (hu : u ∈ subByPattern ((teardown w i s).1.node i).dist topic) :
     ¬ (u.session = s.id ∧ u.pattern = t) := by
-  sorry
+  exact teardown_subscriptions w i hi s t ht hclock hinv topic u hu
+
+/-! counterexamples to the original statement of `C11_teardown_subscriptions` (without `hinv`):
+    in each, `hi`, `ht`, `hclock` hold and a live subscription of the ended session to `t` survives -/
+
+/-- an entry stored under a key that is not its pattern is not found by `subDelete` -/
+theorem teardown_subscriptions_needs_pattern_keys :
+    let e : Sub := ⟨"S1", "t", 1, 0, 5, 0⟩
+    let s : Sess := { id := "S1", conn := "c1", client := "cl", mount := "", keepalive := 30, will := none, topics := ["t"] }
+    let w : World := { nodes := [{ peer := 1, dist := { peer := 1, subs := [("a", [e])] }, pool := initPool }] }
+    0 < w.nodes.length ∧ "t" ∈ s.topics ∧
+    (∀ kl ∈ (w.node 0).dist.subs, ∀ u ∈ kl.2, u.added < w.clock ∧ u.deleted < w.clock) ∧
+    ∃ u ∈ subByPattern ((teardown w 0 s).1.node 0).dist "a", u.session = s.id ∧ u.pattern = "t" := by
+  decide
+
+/-- with a duplicated key, `subsLookup`/`subsAssign` only see the first list -/
+theorem teardown_subscriptions_needs_unique_keys :
+    let e : Sub := ⟨"S1", "t", 1, 0, 5, 0⟩
+    let s : Sess := { id := "S1", conn := "c1", client := "cl", mount := "", keepalive := 30, will := none, topics := ["t"] }
+    let w : World := { nodes := [{ peer := 1, dist := { peer := 1, subs := [("t", []), ("t", [e])] }, pool := initPool }] }
+    0 < w.nodes.length ∧ "t" ∈ s.topics ∧
+    (∀ kl ∈ (w.node 0).dist.subs, ∀ u ∈ kl.2, u.added < w.clock ∧ u.deleted < w.clock) ∧
+    ∃ u ∈ subByPattern ((teardown w 0 s).1.node 0).dist "t", u.session = s.id ∧ u.pattern = "t" := by
+  decide
+
+/-- `subListSet` replaces only the first entry of the session -/
+theorem teardown_subscriptions_needs_unique_sessions :
+    let e1 : Sub := ⟨"S1", "t", 1, 0, 5, 0⟩
+    let e2 : Sub := ⟨"S1", "t", 1, 0, 6, 0⟩
+    let s : Sess := { id := "S1", conn := "c1", client := "cl", mount := "", keepalive := 30, will := none, topics := ["t"] }
+    let w : World := { nodes := [{ peer := 1, dist := { peer := 1, subs := [("t", [e1, e2])] }, pool := initPool }] }
+    0 < w.nodes.length ∧ "t" ∈ s.topics ∧
+    (∀ kl ∈ (w.node 0).dist.subs, ∀ u ∈ kl.2, u.added < w.clock ∧ u.deleted < w.clock) ∧
+    ∃ u ∈ subByPattern ((teardown w 0 s).1.node 0).dist "t", u.session = s.id ∧ u.pattern = "t" := by
+  decide
 
 theorem C11_no_write_after_end (w : World) (i : Nat) (sid : String) (q : Int) (rest : List (String × Int)) (p : Pub)
     (hs : (w.node i).sess sid = none) :
     w.send i ((sid, q) :: rest) p = w.send i rest p := by
-  sorry
+  simp only [World.send, hs]
 
 end Wasp.Broker
